@@ -737,8 +737,12 @@ class ServerProxy(XMLServerProxy):
         >>> # Here old headers are restored
         """
         self.__transport.push_headers(headers)
-        yield self
-        self.__transport.pop_headers(headers)
+        try:
+            yield self
+        finally:
+            # Restore the headers, even if an exception was raised in the
+            # with block
+            self.__transport.pop_headers(headers)
 
 
 # ------------------------------------------------------------------------------
